@@ -71,6 +71,13 @@ PLANS = {
     "space4": consts('{"a","A","_","sp","1"}', 4, []),
     "space6": consts('{"a","A","_","sp","1"}', 6, []),
     "unicode": consts(ID7, 2, UNICODE),
+    # every casing of the two words (4 x 256 spellings) x two separators: lower / upper / title are the
+    # styles, the other 1015 x 2 templates must be rejected
+    "casing": consts('{"a","B","_"}', 2, [],
+                     dict(TplPrefixes=sset([""]), GoForms='Casings(<<"g","o">>)', TplThroughs=sset(["", "_"]),
+                          DesForms='Casings(<<"d","e","s","i","g","n","e","r">>)', TplSuffixes=sset([""]))),
+    # concurrent stage: long identifiers with many words (most of them in the round-trip domain)
+    "conc": consts('{"a","b","c","_"}', 15, VALID8 + INVALID6, emit_from=8),
 }
 
 
@@ -100,7 +107,8 @@ def build_driver(ctx):
     for f in glob.glob(os.path.join(core.HARNESS, "kit", "*.go")):
         shutil.copy(f, os.path.join(mod, "verifkit"))
     os.makedirs(os.path.join(mod, "drv"))
-    shutil.copy(os.path.join(core.HARNESS, "c20", "naming_test.go"), os.path.join(mod, "drv", "naming_test.go"))
+    for f in ("naming_test.go", "concurrent_test.go"):
+        shutil.copy(os.path.join(core.HARNESS, "c20", f), os.path.join(mod, "drv", f))
     open(os.path.join(mod, "go.mod"), "w").write("module verifc20\n\ngo 1.19\n\nrequire golang.org/x/text v0.5.0\n")
     # checksums of the cached golang.org/x/text: the repository's go.sum when there is one (an
     # untracked file in some trees); with -mod=mod and GOSUMDB=off go re-derives them from the
@@ -109,17 +117,59 @@ def build_driver(ctx):
         if os.path.exists(cand):
             shutil.copy(cand, os.path.join(mod, "go.sum"))
             break
-    binp = os.path.join(ctx.build, "c20drv.test")
     e = dict(os.environ)
     e.update(core.GOENV)
+    bins = []
+    for name, flags in (("c20drv", []), ("c20race", ["-race"])):
+        binp = os.path.join(ctx.build, name + ".test")
+        t0 = time.time()
+        p = subprocess.run(["go", "test", "-c", "-vet=off"] + flags + ["-o", binp, "./drv"], cwd=mod, env=e,
+                           capture_output=True, text=True, timeout=900)
+        core.log("go build %s (scratch module): rc=%s %.1fs" % (name, p.returncode, time.time() - t0))
+        if p.returncode != 0 or not os.path.exists(binp):
+            raise core.Infra("driver %s does not build against the current tools/god/util sources:\n%s"
+                             % (name, (p.stdout + p.stderr)[-4000:]))
+        bins.append(binp)
+    return bins
+
+
+def concurrent(ctx, racebin, name, plan, goroutines=16, iters=3, **kw):
+    """N goroutines evaluate every pair of a TLC-generated file at overlapping times (race-detector build)."""
+    only = os.environ.get("VERIF_PLANS")
+    if only and name not in only.split(","):
+        return
+    header, cases = gen(ctx, name, plan, **kw)
+    path, cnt = ctx.write_cases(name + ".ndjson", [header] + cases)
+    ctx.notes.setdefault("pairs", {})[name] = dict(identifiers=len(cases), templates=len(json.loads(header)["templates"]),
+                                                   goroutines=goroutines, iterations=iters)
+    outp = os.path.join(ctx.build, "verdicts-%s.ndjson" % name)
+    logp = os.path.join(ctx.build, name + ".out")
+    e = dict(os.environ)
+    e.update(core.GOENV)
+    e.update(VERIF_SEED=str(ctx.seed), VERIF_TIER=ctx.tier, VERIF_CASES=path, VERIF_OUT=outp, VERIF_GOROUTINES=str(goroutines),
+             VERIF_ITER=str(iters), GOMAXPROCS=str(max(4, min(8, core.maxpar()))), GORACE="halt_on_error=0")
     t0 = time.time()
-    p = subprocess.run(["go", "test", "-c", "-vet=off", "-o", binp, "./drv"], cwd=mod, env=e, capture_output=True, text=True,
-                       timeout=900)
-    core.log("go build c20drv (scratch module): rc=%s %.1fs" % (p.returncode, time.time() - t0))
-    if p.returncode != 0 or not os.path.exists(binp):
-        raise core.Infra("driver c20drv does not build against the current tools/god/util sources:\n%s"
-                         % (p.stdout + p.stderr)[-4000:])
-    return binp
+    with open(logp, "w") as fo:
+        try:
+            rc = subprocess.run([racebin, "-test.run", "^TestVerifC20Concurrent$", "-test.count=1", "-test.timeout", "600s"],
+                                cwd=ctx.build, env=e, stdout=fo, stderr=subprocess.STDOUT, timeout=700).returncode
+        except subprocess.TimeoutExpired:
+            raise core.Infra("concurrent stage %s timed out" % name)
+    out = open(logp, errors="replace").read()
+    races = out.count("WARNING: DATA RACE")
+    # a detected race makes the test binary exit 1 although the driver finished; the verdict file decides
+    cnt, bad = ctx.collect(outp, 0 if (races or rc in (0, 1)) else rc, out, path, name, "concurrent")
+    ctx.go_runs.append(dict(name=name, run="TestVerifC20Concurrent", race=True, rc=rc, wall_s=round(time.time() - t0, 2),
+                            data_races=races))
+    core.log("concurrent %s: cases=%d steps=%d bad=%d data-races=%d rc=%s %.1fs" % (
+        name, len(cases), cnt.get("steps", 0), len(bad), races, rc, time.time() - t0))
+    if races:
+        i = out.index("WARNING: DATA RACE")
+        ctx.disagree("C20:data-race", "the race detector reported %d data race(s) while %d goroutines called ToCamel/ToSnake/"
+                     "FileNamingFormat on the copied sources; first report:\n%s" % (races, goroutines, out[i:i + 2500]),
+                     case=None, source="concurrent")
+    elif rc != 0 and not bad:
+        raise core.Infra("concurrent stage %s exited rc=%s without a disagreement or a race report\n%s" % (name, rc, out[-3000:]))
 
 
 def gen(ctx, name, plan, simulate=None, depth=None):
@@ -158,30 +208,35 @@ def run(ctx):
         "templates in which 'go' or 'designer' occurs more than once before the designer word are not generated",
     ]
     mc(ctx, 3 if ctx.quick else 4)
-    binp = build_driver(ctx)
+    binp, racebin = build_driver(ctx)
     ctx.exhaustive = True
+    one(ctx, binp, "casing", "casing")
+    one(ctx, binp, "unicode", "unicode")
     if ctx.quick:
         one(ctx, binp, "ids4", "ids4")
         one(ctx, binp, "tpl2", "tpl2")
         one(ctx, binp, "space4", "space4")
-        one(ctx, binp, "sim", "sim", simulate=300, depth=13)
+        one(ctx, binp, "sim", "sim", simulate=200, depth=13)
+        concurrent(ctx, racebin, "conc", "conc", simulate=40, depth=16)
     else:
         one(ctx, binp, "ids5", "ids5")
         one(ctx, binp, "ids6", "ids6")
         one(ctx, binp, "tpl3", "tpl3")
         one(ctx, binp, "space6", "space6")
         one(ctx, binp, "sim", "sim", simulate=2500, depth=13)
-        one(ctx, binp, "unicode", "unicode")
+        concurrent(ctx, racebin, "conc", "conc", goroutines=16, iters=10, simulate=150, depth=16)
 
 
 def replay(ctx, rp):
     plan = (rp.get("label") or "ids4").split("-")[0]
     if plan not in PLANS:
         raise core.Infra("replay file names unknown plan %r" % plan)
-    binp = build_driver(ctx)
+    binp, racebin = build_driver(ctx)
     K = dict(PLANS[plan], MaxLen=0, EmitFrom=0)
     cfg = core.render_cfg(spec="Spec", constants=K, invariants=["Emit"])
     r = ctx.tlc("NamingGen", cfg, constants=K, name="header", workers=1)
     header = [p for p in r.printed if p.startswith('{"templates"')][0]
+    if not rp.get("case"):
+        raise core.Infra("this replay file carries no single case (data-race report): re-run `bin/check C20`")
     path, _ = ctx.write_cases("replay.ndjson", [header, rp["case"]])
     ctx.replay(".", {}, RUN, path, label="replay", binp=binp)
